@@ -193,16 +193,19 @@ class Capture:
                     rec = t.rounds[-1]
                     rec["interp"] = snapshot_interp(out)
                     rec["title"] = title
-                    if cap.fs and len(cap.fs.writes) > nwrites:
-                        path = cap.fs.writes[-1][1]
-                        rec["csv_path"] = path
-                        rec["csv_text"] = _read_text(path)
-                    elif cap.fs and title != "Untitled":
+                    wrote = cap.fs.writes[-1][1] if (cap.fs and len(cap.fs.writes) > nwrites) else None
+                    if cap.fs and title != "Untitled":
+                        # the DOCUMENTED place of the table is read back, whatever route the bytes took to get there
+                        # (directly, or through a temporary file that is renamed)
                         import re as _re
 
                         exp = os.path.join(m.ir.repo_root, "results", _re.sub(r'[\\/*?:"<>|\n]', "_", title) + "_ykcals.csv")
-                        rec["csv_expected_path"] = exp
-                        rec["csv_expected_text"] = _read_text(exp)
+                        rec["csv_path"] = exp
+                        rec["csv_text"] = _read_text(exp)
+                        rec["csv_written_path"] = wrote
+                    elif wrote is not None:
+                        rec["csv_path"] = wrote
+                        rec["csv_text"] = _read_text(wrote)
                 return out
 
             return interpret_results
